@@ -53,6 +53,8 @@ struct Options {
     bool latency = false;        // messages travel: delivery is a separate scheduled event (cross-source reordering)
     int max_latency = 50;        // DES: latency in virtual us drawn from [0,max_latency]
     int rdv_pct = 0;             // % of sends that are rendezvous (block until matched)
+    int rdv_min_bytes = 64;      // ... among messages of at least this size: every real MPI sends tiny messages eagerly, and code that
+                                 // relies on that (a 0- or 4-byte control message sent before the receive is posted) works on every deployment
     int lazy_isend_pct = 0;      // % of non-blocking raw sends whose buffer is read only when the message is transferred (legal: the
                                  // buffer belongs to MPI until the request completes); exposes send buffers that die too early
     int stall_permille = 0;      // chance per yield that the rank is stalled
